@@ -271,6 +271,7 @@ PROPS["C04"] = {
          "quick": {"checks": 100, "shards": 10, "timeout": 700},
          "thorough": {"checks": 2000, "shards": 16, "timeout": 2400}},
         {"pkg": "verifx/tree", "run": "^TestC04RegressionStaleVerify$", "all": {"shards": 1, "timeout": 300}},
+        {"pkg": "verifx/tree", "run": "^TestC04NameSenderOnBlockPath$", "quick": {"checks": 120, "shards": 4, "timeout": 600}, "thorough": {"checks": 3000, "shards": 8, "timeout": 2400}},
     ],
 }
 
@@ -537,3 +538,5 @@ _amend("C02", "level_text", "state root, receipts root and receipts bytes must e
 _amend("C11", "level_text", "then attacked by ~15 corruption/transplant families;", "then attacked by ~17 corruption/transplant families (among them audit path elements that are not hashes: the tail of a present key's own leaf preimage; keys are drawn with a zero first byte in a quarter of the cases); the empty trie must yield accepted absence proofs; at StateDB level also variables of accounts WITHOUT storage (key possibly another account's id) must be proved absent against the empty storage root;")
 
 _amend("C08", "level_text", "n = 1..4 producers, each running a real node;", "Failed-reorganisation unit: 3-5 producers, a main chain by one of them (nothing irreversible), a longer branch by the others that arrives children-first with an INVALID last block (the roll-forward moves the finality status along the branch and then fails), later completed by the valid block and extended: LIB on the own main chain after every delivery, and the completed branch adopted. Main unit: n = 1..4 producers, each running a real node;")
+
+_amend("C04", "level_text", "and no block with a forged tx is ever on the main chain.", "and no block with a forged tx is ever on the main chain. Block-path unit: on a chain where a name is registered and handed on 0-2 times, generated transactions under an address or under the name, signed by the right or a wrong key, are put to the block path's signature check with the pool answering 'known' or 'unknown': 'verified' only for the sender's key or the key of the name's owner in the node's state.")
